@@ -233,10 +233,15 @@ Record ropts : Type := mkRopts {
   ro_suppress_internal_node_taxa : bool;      (* default True *)
   ro_suppress_leaf_node_taxa : bool;          (* default False *)
   ro_terminating_semicolon_required : bool;   (* default True *)
-  ro_case_sensitive_taxon_labels : bool       (* default False *)
+  ro_case_sensitive_taxon_labels : bool;      (* default False *)
+  ro_blank_after_comma : bool                 (* MODEL VARIANT, not an option of the library:
+                                                 false = the code as it is (a `,)` yields the trailing
+                                                 blank node only while no node has been created, finding
+                                                 trailing-blank-leaf); true = the repaired form (always).
+                                                 The harness decides by replaying "(a,);" on the code. *)
 }.
 
-Definition default_ropts : ropts := mkRopts NoDirective false false true false true false.
+Definition default_ropts : ropts := mkRopts NoDirective false false true false true false false.
 
 (* trees as the reader builds them: taxon = index of the Taxon in the namespace *)
 Inductive ptree : Type :=
@@ -454,7 +459,7 @@ with children_loop (o : ropts) (fuel : nat) (st : pstate) (node_created : bool) 
       do st2 <- require_next st1 ;;
       do r <- comma_loop f st2 kids1 ;;
       let '(kids2, st3) := r in
-      if negb node_created && cur_is st3 RPAREN then
+      if (ro_blank_after_comma o || negb node_created) && cur_is st3 RPAREN then
         let '(cs, st4) := pull_comments st3 in
         children_loop o f st4 true false (kids2 ++ [blank_node cs])
       else children_loop o f st3 node_created false kids2
